@@ -163,6 +163,20 @@ def gen_case(rng, tier):
     # map preserves — with a channel axis only the affine one is used)
     r = rng.random()
     case["transform"] = None if r < 0.65 else (rng.choice(sorted(TRANSFORMS)) if ec is None else rng.choice(["affine", "f64_tiny"]))
+    if rng.random() < 0.12:
+        # ties: explanations with many exactly equal scores (block-constant or ReLU-ed maps).  WHICH of the tied features
+        # goes first is the sort's business; that exactly k features are in the baseline state at step k is not: the score
+        # is made symmetric in the features (equal weights, constant inputs), so every tie-break gives the same curve
+        case["ties"] = True
+        case["transform"] = None
+        for p in case["params"]:
+            wv = rng.choice([1, 2, -1])
+            p["W"], p["V"], p["X"] = [wv] * dim, [0] * dim, []
+        case["xs"] = [[rng.choice([0.5, 1.0, 1.5, -1.0])] * dim for _ in range(n)]
+        if "fun" in case["baseline"] and case["baseline"]["fun"] == "roll":
+            case["baseline"] = dict(const=0.25)
+        vals = rng.choice([[0.0, 1.0], [0.0, 0.5, 1.0], [0.25]])
+        case["es"] = [[rng.choice(vals) for _ in range(F * (ec or 1))] for _ in range(n)]
     return case
 
 
